@@ -5,7 +5,10 @@ Property theorems only.  Model: `Model/Fourier.lean`, `Model/Wavelet.lean`
 multiples of `π/s`, all phases are `exp(iπ q)` with rational `q`.
 -/
 import OdlModel.Model.Fourier
+import OdlModel.Model.Wavelet
+import OdlModel.Gen.WaveletPad
 import OdlModel.Lemmas.Fourier
+import OdlModel.Lemmas.Wavelet
 
 open OdlModel.Fourier
 
@@ -146,3 +149,351 @@ theorem C18.interp_freqs_match_grid (n : Nat) (hn : 1 ≤ n) (shift hc : Bool) (
       · subst h0; cases shift <;> cases hc <;> simp [interpFreqs] <;> norm_num
       · have hlt : m + 1 < 2 * m + 1 := by omega
         cases shift <;> cases hc <;> simp [interpFreqs, e1, hlt] <;> field_simp <;> ring_nf
+
+/-! ## The discrete transforms (`DiscreteFourierTransform`, `…Inverse`) -/
+
+/-- **Inverse DFT with the coded normalisation.**  Over any field containing a primitive
+`n`-th root of unity `w` (`n` invertible), for both sign conventions: the operator returned
+by `DiscreteFourierTransform.inverse` (flipped sign; `ifftn` for `'+'`, `fftn / prod(shape)`
+for `'-'`) applied to the forward transform (`fftn` for `'-'`, `prod(shape) * ifftn` for
+`'+'`) returns the input, for every length `n` and every input. -/
+theorem C18.dft_inverse {K : Type} [Field K] (w : K) (n : Nat) (hn : 0 < n) (hnK : (n : K) ≠ 0)
+    (hw : IsPrimRoot w n) (plus : Bool) (f : Nat → K) (k : Nat) (hk : k < n) :
+    dftInverseNp (!plus) w w⁻¹ n (dftForwardNp plus w w⁻¹ n f) k = f k := by
+  cases plus
+  · have hF : dftForwardNp false w w⁻¹ n f = fun j => ∑ l ∈ Finset.range n, f l * w ^ (l * j) := by
+      funext j; simp [dftForwardNp, dftSum_eq]
+    rw [hF]
+    simp only [dftInverseNp, npIfft, Bool.not_false, if_true, dftSum_eq]
+    rw [dft_core hw hn f k hk]
+    field_simp
+  · have hF : dftForwardNp true w w⁻¹ n f
+        = fun j => ∑ l ∈ Finset.range n, f l * w⁻¹ ^ (l * j) := by
+      funext j; simp [dftForwardNp, npIfft, dftSum_eq]; field_simp
+    rw [hF]
+    simp only [dftInverseNp, Bool.not_true, Bool.false_eq_true, if_false, dftSum_eq]
+    have h2 := dft_core hw.inv hn f k hk
+    rw [inv_inv] at h2
+    rw [h2]
+    field_simp
+
+/-- Non-vacuity: `-1` is a primitive 2nd root of unity in `ℚ`; the 2-point transform of
+`(3, 5)` is `(8, -2)` and the inverse restores `5`. -/
+example : IsPrimRoot (-1 : ℚ) 2 ∧ dftForwardNp false (-1 : ℚ) (-1)⁻¹ 2 (fun j => if j = 0 then 3 else 5) 1 = -2 := by
+  refine ⟨⟨by norm_num, ?_⟩, by norm_num [dftForwardNp, dftSum, sumTo, pw]⟩
+  intro d hd hd2
+  have : d = 1 := by omega
+  subst this; norm_num
+
+/-- **Back-ends agree.**  With FFTW's plan semantics (forward never scaled, backward scaled
+by `1/n` iff `normalise_idft`) and the flag juggling of `pyfftw_call`, the pyfftw branches of
+the forward and inverse DFT operators compute exactly what the NumPy branches compute, for
+both signs, every length and every input. -/
+theorem C18.dft_backends_agree {K : Type} [Field K] (w winv : K) (n : Nat) (hnK : (n : K) ≠ 0)
+    (plus : Bool) (f : Nat → K) (k : Nat) :
+    dftForwardFftw plus w winv n f k = dftForwardNp plus w winv n f k ∧
+    dftInverseFftw plus w winv n f k = dftInverseNp plus w winv n f k := by
+  cases plus <;>
+    simp [dftForwardFftw, dftForwardNp, dftInverseFftw, dftInverseNp, pyfftwCall, fftwPlan, npIfft] <;>
+    field_simp
+
+/-- Hermitian symmetry of the transform of real data: with a conjugation `σ` (a ring
+homomorphism with `σ w = w⁻¹`) and `σ (f j) = f j`, `σ (F (n-k)) = F k` for `k ≤ n`. -/
+theorem C18.dft_hermitian {K : Type} [Field K] (σ : K →+* K) (w : K) (n : Nat) (hn : 0 < n)
+    (hw : IsPrimRoot w n) (hσ : σ w = w⁻¹) (f : Nat → K) (hf : ∀ j, σ (f j) = f j)
+    (k : Nat) (hk : k ≤ n) :
+    σ (dftSum w n f (n - k)) = dftSum w n f k := by
+  have hw0 := hw.ne_zero hn
+  rw [dftSum_eq, dftSum_eq, map_sum]
+  apply Finset.sum_congr rfl
+  intro j _
+  rw [map_mul, hf, map_pow, hσ]
+  congr 1
+  have h1 : w ^ (j * (n - k)) * w ^ (j * k) = 1 := by
+    rw [← pow_add, ← Nat.mul_add, Nat.sub_add_cancel hk, mul_comm, pow_mul, hw.1, one_pow]
+  rw [inv_pow]
+  rw [eq_inv_of_mul_eq_one_left h1, inv_inv]
+
+/-- **Half-complex round trip.**  For real data the `n/2+1` stored coefficients determine the
+signal: the complex-to-real inverse (Hermitian extension, `ifft`) of ANY array agreeing with
+the forward transform on the indices `0 … n/2` returns the input — for even and odd `n`. -/
+theorem C18.halfcomplex_roundtrip {K : Type} [Field K] (σ : K →+* K) (w : K) (n : Nat)
+    (hn : 0 < n) (hnK : (n : K) ≠ 0) (hw : IsPrimRoot w n) (hσ : σ w = w⁻¹)
+    (f : Nat → K) (hf : ∀ j, σ (f j) = f j)
+    (g : Nat → K) (hg : ∀ j, j ≤ n / 2 → g j = dftSum w n f j) (k : Nat) (hk : k < n) :
+    npIrfft σ w⁻¹ n g k = f k := by
+  have hext : ∀ j ∈ Finset.range n, hermExt σ n g j * w⁻¹ ^ (j * k)
+      = dftSum w n f j * w⁻¹ ^ (j * k) := by
+    intro j hj
+    have hjn := Finset.mem_range.mp hj
+    congr 1
+    unfold hermExt
+    split_ifs with h
+    · exact hg j h
+    · rw [hg (n - j) (by omega)]
+      exact C18.dft_hermitian σ w n hn hw hσ f hf j hjn.le
+  have hF : dftForwardNp false w w⁻¹ n f = dftSum w n f := by
+    funext j; simp [dftForwardNp]
+  have := C18.dft_inverse w n hn hnK hw false f k hk
+  rw [hF] at this
+  simp only [dftInverseNp, npIfft, Bool.not_false, if_true] at this
+  rw [← this]
+  unfold npIrfft npIfft
+  rw [dftSum_eq, dftSum_eq, Finset.sum_congr rfl hext]
+
+/-! ## Findings on the plain DFT operators (the model follows the code) -/
+
+/-- The range computed by the constructor fits the produced array unless `halfcomplex=True`
+is passed for a COMPLEX domain. -/
+theorem C18.dft_range_matches_output_partial (n : Nat) (complexDom hcArg : Bool)
+    (h : ¬ (complexDom = true ∧ hcArg = true)) :
+    dftRangeLenCoded n hcArg = dftOutLen n complexDom hcArg := by
+  cases complexDom <;> cases hcArg <;>
+    simp_all [dftRangeLenCoded, dftOutLen, dftHalfcomplexFlag, recipGrid]
+
+/-- Counterexample on the model (finding F18b): complex domain with `halfcomplex=True`
+(documented "no effect"): for every `n ≥ 3` the range is shorter than the produced array. -/
+theorem C18.dft_range_complex_halfcomplex_fails (n : Nat) (hn : 3 ≤ n) :
+    dftRangeLenCoded n true ≠ dftOutLen n true true := by
+  simp [dftRangeLenCoded, dftOutLen, dftHalfcomplexFlag, recipGrid, hcLen]; omega
+
+/-- The pyfftw inverse of the plain DFT is well defined unless the range is real and
+`halfcomplex` is off. -/
+theorem C18.dft_inverse_pyfftw_status_partial (fftw realRan hc plus : Bool) (n : Nat)
+    (h : ¬ (fftw = true ∧ realRan = true ∧ hc = false)) :
+    dftInverseStatus fftw realRan hc plus n = none := by
+  cases fftw <;> cases realRan <;> cases hc <;> simp_all [dftInverseStatus]
+
+/-- Counterexample on the model (finding F18c): real range, no halfcomplex, pyfftw: the
+inverse raises for every last-axis length `n ≥ 3` and both signs. -/
+theorem C18.dft_inverse_pyfftw_real_fails (plus : Bool) (n : Nat) (hn : 3 ≤ n) :
+    dftInverseStatus true true false plus n = some (some "err:value") := by
+  have : ¬ (n / 2 + 1 = n) := by omega
+  simp [dftInverseStatus, hcLen, this]
+
+/-- `pyfftw_call` keeps the data intact while planning whenever the input was not cast to
+complex first (complex input, or half-complex real input), for every planner. -/
+theorem C18.pyfftw_planning_preserves_data_partial (realIn hc fresh destroys : Bool)
+    (h : ¬ (realIn = true ∧ hc = false)) :
+    dataSurvivesPlanning realIn hc fresh destroys = true := by
+  cases realIn <;> cases hc <;> cases fresh <;> cases destroys <;>
+    simp_all [dataSurvivesPlanning, planOnDataArray, mustCopy, arrayInCopied]
+
+/-- Counterexample on the model (finding F18d): real input without halfcomplex, a fresh plan
+and a destroying planner (`FFTW_MEASURE`, the default of the DFT operators): the plan is
+created on the array that holds the data. -/
+theorem C18.pyfftw_planning_destroys_real_input_fails :
+    dataSurvivesPlanning true false true true = false := by decide
+
+/-! ## Phases of the continuous transform (`dft_preprocess_data`, `dft_postprocess_data`) -/
+
+namespace OdlModel.C18
+/-- Equality of phase exponents modulo 2 (`exp(iπ a) = exp(iπ b)`). -/
+def EqMod2 (a b : Rat) : Prop := ∃ z : Int, a - b = 2 * (z : Rat)
+end OdlModel.C18
+open OdlModel.C18
+
+/-- **Phase factorisation.**  For every length `n ≥ 1`, node indices `k`, `j < n`, shift
+option, sign and grid offset `t = x0/s`, the exponents (in units of `π`) of
+pre-processing factor `k`, DFT kernel `ω^{jk}` (`∓2jk/n`) and post-processing phase `j` add up,
+modulo 2, to the exponent `± x_k ξ_j / π = ±(t + k) c_j` of the Fourier kernel on the
+real-space node `x_k = x0 + k s` and the reciprocal node `ξ_j = c_j π/s`:
+`post_j · Σ_k pre_k f_k ω^{jk}` is the discretised Fourier integral. -/
+theorem C18.phase_factorisation (n : Nat) (hn : 1 ≤ n) (shift plus : Bool) (t : Rat)
+    (k j : Nat) (hj : j < n) :
+    EqMod2 (preExp n shift plus k + sgnOf plus * (2 * k * j / n)
+              + postExp plus t ((recipGrid n shift false).point j))
+           (sgnOf plus * ((t + k) * (recipGrid n shift false).point j)) := by
+  have hn0 : (n : Rat) ≠ 0 := by exact_mod_cast (by omega : n ≠ 0)
+  have hp : (recipGrid n shift false).point j
+      = (if shift then -1 else -1 + 1 / (n : Rat)) + 2 * (j : Rat) / n := by
+    by_cases h2 : 2 ≤ n
+    · exact (C18.recip_grid_uniform n h2 shift).2.2 j
+    · have h1 : n = 1 := by omega
+      have hj0 : j = 0 := by omega
+      subst h1; subst hj0
+      cases shift <;> simp [recipGrid, Grid.point]
+  rw [hp]
+  have hk : (k : Rat) = 2 * ((k / 2 : Nat) : Rat) + ((k % 2 : Nat) : Rat) := by
+    have := Nat.div_add_mod k 2
+    exact_mod_cast this.symm
+  cases shift <;> cases plus
+  · exact ⟨0, by simp [preExp, postExp, sgnOf]; field_simp; ring⟩
+  · exact ⟨0, by simp [preExp, postExp, sgnOf]; field_simp; ring⟩
+  · refine ⟨-((k / 2 : Nat) : Int), ?_⟩
+    simp only [preExp, postExp, sgnOf, if_true, Bool.false_eq_true, if_false]
+    generalize k / 2 = m at hk ⊢
+    generalize k % 2 = r at hk ⊢
+    push_cast
+    field_simp
+    linear_combination (-(n : Rat)) * hk
+  · refine ⟨((k / 2 : Nat) : Int) + ((k % 2 : Nat) : Int), ?_⟩
+    simp only [preExp, postExp, sgnOf, if_true]
+    generalize k / 2 = m at hk ⊢
+    generalize k % 2 = r at hk ⊢
+    push_cast
+    field_simp
+    linear_combination (n : Rat) * hk
+
+example : EqMod2 (preExp 5 true false 3 + sgnOf false * (2 * 3 * 2 / 5)
+      + postExp false (1/2) ((recipGrid 5 true false).point 2))
+    (sgnOf false * ((1/2 + 3) * (recipGrid 5 true false).point 2)) :=
+  by simpa using C18.phase_factorisation 5 (by norm_num) true false (1/2) 3 2 (by norm_num)
+
+/-- On a shifted axis every pre-processing factor is `±1` (integer exponent): real data
+stays real, which the half-complex transform relies on. -/
+theorem C18.pre_factor_real_of_shift (n : Nat) (plus : Bool) (k : Nat) :
+    ∃ z : Int, preExp n true plus k = (z : Rat) :=
+  ⟨((k % 2 : Nat) : Int), by unfold preExp; simp only [if_true]; exact (Int.cast_natCast _).symm⟩
+
+/-- On a NON-shifted axis with `n ≥ 2` points the factor of node 1 is not real
+(`exp(∓iπ(1-1/n))`, `0 < 1 - 1/n < 1`): real data becomes complex. -/
+theorem C18.pre_factor_not_real_of_no_shift (n : Nat) (hn : 2 ≤ n) (plus : Bool) :
+    ¬ ∃ z : Int, preExp n false plus 1 = (z : Rat) := by
+  rintro ⟨z, hz⟩
+  have hn0 : (n : Rat) ≠ 0 := by exact_mod_cast (by omega : n ≠ 0)
+  cases plus
+  · simp [preExp, sgnOf] at hz
+    have h : (n : Rat) - 1 = z * n := by field_simp at hz; linarith
+    have h' : (n : Int) - 1 = z * n := by exact_mod_cast h
+    rcases le_or_gt z 0 with hz0 | hz0 <;> nlinarith
+  · simp [preExp, sgnOf] at hz
+    have h : 1 - (n : Rat) = z * n := by field_simp at hz; linarith
+    have h' : 1 - (n : Int) = z * n := by exact_mod_cast h
+    rcases le_or_gt z (-1) with hz0 | hz0 <;> nlinarith
+
+/-- The forward and inverse continuous transforms run on both back-ends whenever every
+transformed axis is shifted (real or complex data, half-complex or not; `halfcomplex` is
+only ever set on real spaces). -/
+theorem C18.ft_status_all_shifted_partial (fftw real hc : Bool) (shifts : List Bool)
+    (h : shifts.all id = true) (hreal : hc = true → real = true) :
+    ftForwardStatus fftw real hc shifts = none ∧ ftInverseStatus fftw real hc shifts = none := by
+  cases fftw <;> cases real <;> cases hc <;>
+    simp_all [ftForwardStatus, ftInverseStatus, preprocComplex]
+
+/-- Counterexamples on the model (findings F18e, F18f): a non-shifted axis next to the halved
+one breaks the half-complex transform (NumPy forward runs but on data whose imaginary part
+was dropped — see `pre_factor_not_real_of_no_shift`; pyfftw forward asserts; both inverses
+raise), and any non-shifted axis breaks the pyfftw inverse on a real space. -/
+theorem C18.ft_status_mixed_shift_fails :
+    preprocComplex true [false, true] = true ∧
+    ftForwardStatus false true true [false, true] = none ∧
+    ftForwardStatus true true true [false, true] = some "err:assert" ∧
+    ftInverseStatus false true true [false, true] = some "err:cast" ∧
+    ftInverseStatus true true true [false, true] = some "err:cast" ∧
+    ftInverseStatus true true false [false] = some "err:cast" ∧
+    ftInverseStatus false true false [false] = none := by decide
+
+/-- **The inverse's factors cancel the forward's** (`FourierTransformInverse`: division by
+the kernel and phase with the flipped sign; `dft_preprocess_data` with the flipped sign):
+the phase exponents of the forward post-processing and the inverse pre-processing add up to
+0, and those of the forward pre-processing and the inverse post-processing to 0 modulo 2,
+for every `n`, shift, sign, node and offset. -/
+theorem C18.ft_inverse_factors (n : Nat) (shift plus : Bool) (t c : Rat) (k : Nat) :
+    postExp plus t c + postExp (!plus) t c = 0 ∧
+    EqMod2 (preExp n shift plus k + preExp n shift (!plus) k) 0 := by
+  constructor
+  · cases plus <;> simp [postExp, sgnOf]
+  · cases shift
+    · exact ⟨0, by cases plus <;> simp [preExp, sgnOf]⟩
+    · refine ⟨((k % 2 : Nat) : Int), ?_⟩
+      simp only [preExp, if_true]
+      generalize k % 2 = r
+      push_cast; ring
+
+/-! ## Wavelets: ODL's own part (PyWavelets' filter bank is a parameter) -/
+
+open OdlModel.Wavelet OdlModel.Gen.WaveletPad
+
+/-- **Flatten/unflatten round trip.**  For ANY list of coefficient blocks (any number of
+levels, any shapes — each block raveled), cutting the flat coefficient vector at the slices
+that `precompute_raveled_slices` derives from the block sizes alone returns exactly the
+blocks that were concatenated. -/
+theorem C18.ravel_unravel_id {K : Type} (blocks : List (List K)) :
+    unravel (slicesFrom 0 (blocks.map List.length)) (ravel blocks) = blocks := by
+  simpa [ravel] using unravel_aux blocks [] []
+
+/-- **Crop rule.**  Whenever PyWavelets' reconstruction has an admissible length (`n`, or
+`n+1` for odd `n`), the crop of `WaveletTransformInverse._call` keeps exactly `n` entries and
+never raises, for every `n`. -/
+theorem C18.crop_rule (n r : Nat) (h : reconLenOk n r = true) : cropLen r n = .ok n := by
+  simp only [reconLenOk, Bool.or_eq_true, beq_iff_eq, Bool.and_eq_true] at h
+  unfold cropLen
+  rcases h with h | ⟨h, _⟩
+  · subst h; simp
+  · subst h; simp
+
+/-- Any other reconstruction length is rejected (`ValueError`), never silently cropped. -/
+theorem C18.crop_rule_rejects (n r : Nat) (h1 : r ≠ n) (h2 : r ≠ n + 1) : cropLen r n = .error "err:value" := by
+  simp [cropLen, h1, h2]
+
+/-- The pad-mode table regenerated from the live module is injective in both directions and
+maps ONTO the mode list of the installed PyWavelets (complete finite table, `decide`). -/
+theorem C18.pad_table_sound :
+    (padTable.map (·.1)).Nodup ∧ (padTable.map (·.2)).Nodup ∧
+    (∀ p ∈ padTable, p.2 ∈ pywtModes) ∧
+    (∀ m ∈ pywtModes, ∃ p ∈ padTable, p.2 = m) := by decide
+
+/-- **Adjoint scaling.**  Let `W` (the decomposition, `n` samples to `m` coefficients) be an
+ℓ² isometry with two-sided inverse `V` (assumption on PyWavelets: orthogonal wavelet,
+periodization, dyadic sizes).  With the cell-volume weighted pairing `cv·Σ` on the image
+space and the plain pairing on the coefficient space, the operators ODL returns —
+`(1/cv)·W⁻¹` for the forward transform and `cv·W` for the inverse — satisfy the adjoint
+identity for all `x`, `c`, every `cv ≠ 0` and all sizes. -/
+theorem C18.wavelet_adjoint_scale {K : Type} [Field K] (n m : Nat) (cv : K) (hcv : cv ≠ 0)
+    (W V : (Nat → K) → (Nat → K))
+    (hiso : ∀ x x', sumTo m (fun i => W x i * W x' i) = sumTo n (fun i => x i * x' i))
+    (hWV : ∀ c i, i < m → W (V c) i = c i)
+    (hVW : ∀ x i, i < n → V (W x) i = x i)
+    (x c : Nat → K) :
+    -- ⟨W x, c⟩_coeff = ⟨x, (1/cv) V c⟩_cv
+    sumTo m (fun i => W x i * c i)
+      = cv * sumTo n (fun i => x i * (adjointScale true cv * V c i)) ∧
+    -- ⟨V c, x⟩_cv = ⟨c, cv W x⟩_coeff
+    cv * sumTo n (fun i => V c i * x i)
+      = sumTo m (fun i => c i * (adjointScale false cv * W x i)) := by
+  have e1 : sumTo m (fun i => W x i * c i) = sumTo m (fun i => W x i * W (V c) i) := by
+    rw [sumTo_eq_sum, sumTo_eq_sum]
+    exact Finset.sum_congr rfl fun i hi => by rw [hWV c i (Finset.mem_range.mp hi)]
+  have e2 : sumTo n (fun i => V c i * x i) = sumTo n (fun i => V c i * V (W x) i) := by
+    rw [sumTo_eq_sum, sumTo_eq_sum]
+    exact Finset.sum_congr rfl fun i hi => by rw [hVW x i (Finset.mem_range.mp hi)]
+  have e3 : sumTo n (fun i => V c i * V (W x) i) = sumTo m (fun i => c i * W x i) := by
+    rw [← hiso (V c) (V (W x))]
+    rw [sumTo_eq_sum, sumTo_eq_sum]
+    exact Finset.sum_congr rfl fun i hi => by
+      rw [hWV c i (Finset.mem_range.mp hi), hWV (W x) i (Finset.mem_range.mp hi)]
+  constructor
+  · rw [e1, hiso, sumTo_eq_sum, sumTo_eq_sum, Finset.mul_sum]
+    apply Finset.sum_congr rfl; intro i _
+    simp only [adjointScale, if_true]; field_simp
+  · rw [e2, e3, sumTo_eq_sum, sumTo_eq_sum, Finset.mul_sum]
+    apply Finset.sum_congr rfl; intro i _
+    simp only [adjointScale, Bool.false_eq_true, if_false]; ring
+
+/-- Non-vacuity: the coordinate swap on two samples is an isometry with itself as inverse. -/
+example (cv : ℚ) (hcv : cv ≠ 0) (x c : Nat → ℚ) :
+    sumTo 2 (fun i => x (1 - i) * c i)
+      = cv * sumTo 2 (fun i => x i * (adjointScale true cv * c (1 - i))) :=
+  (C18.wavelet_adjoint_scale 2 2 cv hcv (fun x i => x (1 - i)) (fun x i => x (1 - i))
+    (by intro x x'; simp [sumTo]; ring)
+    (by intro c i hi; have : 1 - (1 - i) = i := by omega
+        simp [this])
+    (by intro c i hi; have : 1 - (1 - i) = i := by omega
+        simp [this]) x c).1
+
+example : unravel (slicesFrom 0 ([[1, 2], [], [3]].map List.length)) (ravel [[1, 2], [], [3]])
+    = [[1, 2], [], [3]] := C18.ravel_unravel_id _
+
+/-- The naming-convention table of the `WaveletTransform` documentation (with the spelling
+`pywt_periodic` used by the code and its doctests). -/
+def OdlModel.C18.documentedModes : List (String × String) :=
+  [("symmetric", "symmetric"), ("reflect", "reflect"), ("order1", "smooth"),
+   ("order0", "constant"), ("constant", "zero"), ("periodic", "periodic"),
+   ("pywt_periodic", "periodization"), ("antisymmetric", "antisymmetric"),
+   ("antireflect", "antireflect")]
+
+/-- The regenerated table realises exactly the documented naming convention. -/
+theorem C18.pad_table_documented :
+    (∀ p ∈ OdlModel.C18.documentedModes, OdlModel.Gen.WaveletPad.padTable.lookup p.1 = some p.2) ∧
+    OdlModel.Gen.WaveletPad.padTable.length = OdlModel.C18.documentedModes.length := by decide
